@@ -277,6 +277,112 @@ var TemplatesA = []Template{
 		}
 		b[5] = pick(b[0]) + pick(b[4])*100
 	}},
+	{"switch-every-case-breaks", "i32", "", "var a = 0; switch buf[0] { case 1: { a = 1; break; } case 2: { a = buf[1]; break; } default: { a = 2; break; } } buf[2] = a; buf[3] = a + 1;", func(b []uint32) {
+		a := uint32(2)
+		switch I(b[0]) {
+		case 1:
+			a = 1
+		case 2:
+			a = b[1]
+		}
+		b[2] = a
+		b[3] = a + 1
+	}},
+	{"loop-local-counter-only-in-body", "u32", "", "var acc: u32; loop { acc = acc + 1u; if (acc > 5u) { break; } buf[acc & 7u] = acc; }", func(b []uint32) {
+		for acc := uint32(1); acc <= 5; acc++ {
+			b[acc&7] = acc
+		}
+	}},
+	{"helper-with-local-called-in-loop", "u32", "fn count(n: u32) -> u32 { var acc = 0u; for (var i = 0u; i < n; i++) { acc += 2u; } return acc; }", "var t = 0u; for (var j = 0u; j < 3u; j++) { t += count(buf[j] & 3u); } buf[4] = t;", func(b []uint32) {
+		var t uint32
+		for j := 0; j < 3; j++ {
+			t += 2 * (b[j] & 3)
+		}
+		b[4] = t
+	}},
+	{"const-bool-operand-of-short-circuit", "u32", "const T = true; const F = false;", "if (T && buf[0] > 3u) { buf[2] = 1u; } else { buf[2] = 2u; } if (F || buf[1] == 2u) { buf[3] = 1u; } else { buf[3] = 2u; } if (true && buf[0] == 9u) { buf[4] = 7u; } if (false && buf[0] == 9u) { buf[5] = 7u; } if (true || buf[0] == 9u) { buf[6] = 7u; }", func(b []uint32) {
+		b2, b3 := uint32(2), uint32(2)
+		if b[0] > 3 {
+			b2 = 1
+		}
+		if b[1] == 2 {
+			b3 = 1
+		}
+		if b[0] == 9 {
+			b[4] = 7
+		}
+		b[2], b[3] = b2, b3
+		b[6] = 7
+	}},
+	{"operand-read-before-later-call-mutates-it", "u32", "var<private> seed: u32 = 1u; fn next() -> u32 { seed = seed * 1664525u + 1013904223u; return seed; } fn bump(p: ptr<function, u32>) -> u32 { *p = *p + 7u; return *p; }",
+		"seed = buf[0]; buf[1] = select(seed, 0u, buf[2] == 7u) ^ next(); var x = buf[3]; buf[4] = select(1u, x, buf[2] != 9u) + bump(&x); buf[5] = seed + next(); buf[6] = x * bump(&x);", func(b []uint32) {
+			seed := b[0]
+			next := func() uint32 { seed = seed*1664525 + 1013904223; return seed }
+			old := seed
+			if b[2] == 7 {
+				old = 0
+			}
+			b[1] = old ^ next()
+			x := b[3]
+			bump := func() uint32 { x += 7; return x }
+			sel := uint32(1)
+			if b[2] != 9 {
+				sel = x
+			}
+			b[4] = sel + bump()
+			s0 := seed
+			b[5] = s0 + next()
+			x0 := x
+			b[6] = x0 * bump()
+		}},
+	{"switch-case-ends-in-conditional-continue", "u32", "", "var acc = 0u; for (var i = 0u; i < 3u; i++) { switch buf[i] & 1u { case 0u: { acc += 1u; if (buf[i] > 5u) { continue; } } case 1u: { acc += 10u; } default: { acc += 100u; } } acc += 1000u; } buf[4] = acc;", func(b []uint32) {
+		var acc uint32
+		for i := 0; i < 3; i++ {
+			switch b[i] & 1 {
+			case 0:
+				acc += 1
+				if b[i] > 5 {
+					continue
+				}
+			case 1:
+				acc += 10
+			}
+			acc += 1000
+		}
+		b[4] = acc
+	}},
+	{"pointer-param-private", "i32", "var<private> counter: i32 = 5; fn bump(p: ptr<private, i32>) -> i32 { let old = *p; *p = old + 1; return old; }",
+		"let a = bump(&counter); let b = bump(&counter); buf[1] = a * 100 + b; buf[2] = counter + buf[0]; buf[3] = -select(buf[0], 4, buf[4] == 1) + (~select(1, buf[0], buf[4] == 2));", func(b []uint32) {
+			s1, s2 := b[0], uint32(1)
+			if b[4] == 1 {
+				s1 = 4
+			}
+			if b[4] == 2 {
+				s2 = b[0]
+			}
+			b[3] = -s1 + ^s2
+			b[1] = 5*100 + 6
+			b[2] = 7 + b[0]
+		}},
+	{"helper-nested-return-called-in-loop", "u32", "fn classify(k: u32) -> u32 { switch k { case 1u: { return 100u; } default: { } } var r = 0u; for (var i = 0u; i < 2u; i++) { if (k == 7u + i) { return 50u + i; } r += k; } return r + 9u; }",
+		"for (var j = 0u; j < 4u; j++) { buf[4u + j] = classify(buf[j]); }", func(b []uint32) {
+			classify := func(k uint32) uint32 {
+				if k == 1 {
+					return 100
+				}
+				var r uint32
+				for i := uint32(0); i < 2; i++ {
+					if k == 7+i {
+						return 50 + i
+					}
+					r += k
+				}
+				return r + 9
+			}
+			for j := 0; j < 4; j++ {
+				b[4+j] = classify(b[j])
+			}
+		}},
 }
 
 // BinAsTemplate turns an integer binary operator into a template: buf[2] = buf[0] OP buf[1].
@@ -324,6 +430,12 @@ var TemplatesW = []Template{
 		"#args @builtin(local_invocation_id) lid: vec3<u32>, @builtin(workgroup_id) wid: vec3<u32>, @builtin(local_invocation_index) li: u32#buf[0] = acc[lid.x] + wid.y + li; acc[1] = wid.x; buf[1] = acc[1] + acc[0];", func(b []uint32) {
 			b[0] = WG[1]
 			b[1] = WG[0]
+		}},
+	{"wg-pointer-param", "u32", "var<workgroup> slots: array<u32, 4>; fn add(p: ptr<workgroup, array<u32, 4>>, i: u32, v: u32) -> u32 { let old = (*p)[i]; (*p)[i] = old + v; return old; }",
+		"let a = add(&slots, 1u, buf[0]); let b = add(&slots, 1u, 3u); buf[1] = a; buf[2] = b; buf[3] = slots[1] + slots[2];", func(b []uint32) {
+			b[1] = 0
+			b[2] = b[0]
+			b[3] = b[0] + 3
 		}},
 }
 
